@@ -485,10 +485,91 @@ fn gen_digits(rng: &mut Rng, lo: u64, span: u64) -> String {
   s
 }
 
+/// Number texts in which zeros stand next to the decimal point on either side: integer parts that are zero or end in
+/// zeros, fractions that are all zeros or begin / end with zeros (the scale of a literal is kept by the evaluator, so
+/// these are the texts a renderer that "tidies" numbers gets wrong).
+const ZERO_INTS: &[&str] = &["0", "5", "10", "20", "100", "120", "1200", "105", "1000000", "90000000000000000000"];
+const ZERO_FRACS: &[&str] = &["0", "00", "000", "0000000000", "50", "05", "500", "10", "010", "001", "100"];
+
+fn zero_pattern_numbers() -> Vec<String> {
+  let mut out = vec![];
+  for sign in ["", "-"] {
+    for i in ZERO_INTS {
+      // no negative zeros: `-0.0` written in an expression is the negation of zero, which is zero
+      let zero = |t: &str| num_norm(t).map(|n| n.1 == "0").unwrap_or(false);
+      if !(sign == "-" && zero(i)) {
+        out.push(format!("{}{}", sign, i));
+      }
+      for f in ZERO_FRACS {
+        let t = format!("{}.{}", i, f);
+        if !(sign == "-" && zero(&t)) {
+          out.push(format!("{}{}", sign, t));
+        }
+      }
+    }
+  }
+  out
+}
+
+/// A number text as (negative, coefficient digits without leading / trailing zeros, exponent): two texts denote the
+/// same number iff these agree (zero is `(false, "0", 0)`). `None`: not a decimal number text.
+fn num_norm(text: &str) -> Option<(bool, String, i64)> {
+  let (neg, rest) = match text.strip_prefix('-') {
+    Some(r) => (true, r),
+    None => (false, text.strip_prefix('+').unwrap_or(text)),
+  };
+  let (mant, exp) = match rest.find(|c| c == 'e' || c == 'E') {
+    Some(p) => (&rest[..p], rest[p + 1..].parse::<i64>().ok()?),
+    None => (rest, 0),
+  };
+  let (ip, fp) = match mant.split_once('.') {
+    Some((i, f)) => (i, f),
+    None => (mant, ""),
+  };
+  if (ip.is_empty() && fp.is_empty()) || !ip.chars().chain(fp.chars()).all(|c| c.is_ascii_digit()) {
+    return None;
+  }
+  let mut digits = format!("{}{}", ip, fp);
+  let mut exp = exp - fp.len() as i64;
+  while digits.len() > 1 && digits.ends_with('0') {
+    digits.pop();
+    exp += 1;
+  }
+  let digits = digits.trim_start_matches('0').to_string();
+  if digits.is_empty() {
+    return Some((false, "0".to_string(), 0));
+  }
+  Some((neg, digits, exp))
+}
+
+/// The numbers of the JSON document are the numbers written into the value (structure walked in parallel; anything
+/// that is not a number written out is not looked at).
+fn same_numbers(g: &G, j: &J) -> bool {
+  match (g, j) {
+    (G::Num(t), J::Num(l)) => num_norm(t).is_some() && num_norm(t) == num_norm(l),
+    (G::Num(_), _) => false,
+    (G::List(xs), J::Arr(ys)) => xs.len() == ys.len() && xs.iter().zip(ys.iter()).all(|(x, y)| same_numbers(x, y)),
+    (G::Ctx(es), J::Obj(ms)) => es.iter().all(|(k, v)| match ms.iter().find(|(mk, _)| mk == k) {
+      Some((_, mv)) => same_numbers(v, mv),
+      None => !matches!(v, G::Num(_)),
+    }),
+    _ => true,
+  }
+}
+
 fn gen_number(rng: &mut Rng) -> String {
   let sign = if rng.chance(1, 3) { "-" } else { "" };
-  match rng.below(10) {
+  match rng.below(12) {
     0 => "0".to_string(),
+    10 | 11 => {
+      let i = *rng.pick(ZERO_INTS);
+      let t = if rng.chance(1, 5) { i.to_string() } else { format!("{}.{}", i, rng.pick(ZERO_FRACS)) };
+      if num_norm(&t).map(|n| n.1 == "0").unwrap_or(true) {
+        t
+      } else {
+        format!("{}{}", sign, t)
+      }
+    }
     1 | 2 => format!("{}{}", sign, gen_digits(rng, 1, 3)),
     3 => format!("{}{}", sign, gen_digits(rng, 10, 24)),
     4 | 5 => {
@@ -760,6 +841,14 @@ fn run_jsonify(cfg: &Cfg, rep: &mut Report, model: &mut Model, rng: &mut Rng) {
       cases.push((g, v));
     }
   }
+  // every number text with zeros next to the decimal point, alone and inside a list and a context
+  for t in zero_pattern_numbers() {
+    for g in [G::Num(t.clone()), G::List(vec![G::Num(t.clone()), G::Num("1".into())]), G::Ctx(vec![("n".into(), G::Num(t.clone()))])] {
+      if let Some(v) = to_value(&g) {
+        cases.push((g, v));
+      }
+    }
+  }
   for i in 0..n {
     let escapes = i % 3 != 0;
     let temporals = i % 5 == 0;
@@ -821,6 +910,13 @@ fn run_jsonify(cfg: &Cfg, rep: &mut Report, model: &mut Model, rng: &mut Rng) {
         Err(e) => format!("{} is not a JSON document: {}", text, e),
       };
       rep.disagree(Kind::ImplVsSpec, "jsonify_decodes", sig, &input, &got, &format!("a JSON document decoding to {}", expected.sexp()));
+    }
+    // the numbers of the document are the numbers written into the value (compared as numbers, against the literal
+    // texts the value was made of: independent of every printer of the implementation)
+    if let Ok(j) = &parsed {
+      if !same_numbers(g, j) {
+        rep.disagree(Kind::ImplVsSpec, "jsonify_decodes", "jsonify writes a number that is not the number of the value", &input, &text, &format!("the numbers of {}", to_feel(g)));
+      }
     }
     // the oracles agree: Lean decoder, strict parser, serde_json (moderate numbers only)
     let parsed_s = match &parsed {
@@ -1409,8 +1505,72 @@ fn run_http(cfg: &Cfg, rep: &mut Report, model: &mut Model, rng: &mut Rng) {
       sequences.push(seq);
     }
   }
+  // ---- repeated requests: the same evaluation requests, byte for byte, after every operation of a history — the
+  // answer to a request depends on the workspace as it is when the request arrives (stored models *and* deployment
+  // state), never on an answer given before. Directed: every single operation between two identical rounds of
+  // evaluations, from every kind of state; random histories with the fixed round after every operation.
+  let n_before_repeat = sequences.len();
+  {
+    let (a, b, bad) = (models[0].clone(), models[4].clone(), models[3].clone());
+    let round = |seq: &mut Vec<Rq>| {
+      seq.push(Rq::Eval { model: a.name.clone(), invocable: "D".into(), body: "{}".into(), sent: None });
+      seq.push(echo_of(&a.name, &G::Num("10.0".into())));
+      seq.push(Rq::Eval { model: b.name.clone(), invocable: "D".into(), body: "{}".into(), sent: None });
+      seq.push(Rq::Eval { model: "n9".into(), invocable: "D".into(), body: "{}".into(), sent: None });
+    };
+    let ops: Vec<Rq> = vec![
+      Rq::Add(Content::Model(a.clone())),
+      Rq::Add(Content::Model(b.clone())),
+      Rq::Replace(Content::Model(a.clone())),
+      Rq::Replace(Content::Model(bad.clone())),
+      Rq::Replace(Content::Model(b.clone())),
+      Rq::Remove(Some(a.ns.clone()), Some(a.name.clone())),
+      Rq::Remove(Some(b.ns.clone()), Some(b.name.clone())),
+      Rq::Clear,
+      Rq::Deploy,
+      Rq::Add(Content::BadXml(0)),
+      Rq::Replace(Content::Missing),
+    ];
+    let pres: Vec<Vec<Rq>> = vec![
+      vec![],
+      vec![Rq::Add(Content::Model(a.clone()))],
+      vec![Rq::Add(Content::Model(a.clone())), Rq::Deploy],
+      vec![Rq::Add(Content::Model(a.clone())), Rq::Add(Content::Model(b.clone())), Rq::Deploy],
+      vec![Rq::Add(Content::Model(bad.clone())), Rq::Add(Content::Model(b.clone())), Rq::Deploy],
+    ];
+    for pre in &pres {
+      for op in &ops {
+        let mut seq = pre.clone();
+        round(&mut seq);
+        seq.push(op.clone());
+        round(&mut seq);
+        seq.push(Rq::Deploy);
+        round(&mut seq);
+        sequences.push(seq);
+      }
+    }
+    let n_rep = if thorough { 2_000 } else { 60 };
+    for _ in 0..n_rep {
+      let mut seq = vec![];
+      for _ in 0..(2 + rng.below(6)) {
+        seq.push(if rng.chance(1, 3) { Rq::Deploy } else { rng.pick(&ops).clone() });
+        round(&mut seq);
+      }
+      sequences.push(seq);
+    }
+    // every number text with zeros next to the decimal point, echoed by the running service
+    let mut seq = vec![Rq::Add(Content::Model(a.clone())), Rq::Deploy];
+    for (i, t) in zero_pattern_numbers().into_iter().enumerate() {
+      seq.push(echo_of(&a.name, &if i % 3 == 0 { G::List(vec![G::Num(t)]) } else { G::Num(t) }));
+      if seq.len() >= 40 {
+        sequences.push(std::mem::replace(&mut seq, vec![Rq::Add(Content::Model(a.clone())), Rq::Deploy]));
+      }
+    }
+    sequences.push(seq);
+  }
+  rep.extra.insert("http_sequences_repeated_requests".into(), json!(sequences.len() - n_before_repeat));
   rep.extra.insert("http_sequences_rejected_content".into(), json!(n_rejected_sequences));
-  rep.extra.insert("http_sequences_white_space_names".into(), json!(sequences.len() - n_random_sequences - n_rejected_sequences));
+  rep.extra.insert("http_sequences_white_space_names".into(), json!(n_before_repeat - n_random_sequences - n_rejected_sequences));
 
   // model requests
   let mut reqs = vec![];
@@ -1606,6 +1766,7 @@ fn run_http(cfg: &Cfg, rep: &mut Report, model: &mut Model, rng: &mut Rng) {
     rep.hit(&format!("http:sequence-length:{}", if seq.len() > 8 { ">8".to_string() } else { seq.len().to_string() }));
   }
   run_tck(cfg, rep, model, rng, &svc, &mut server, &models[0]);
+  run_limits(cfg, rep, &svc, &mut server, &models[0]);
   run_parallel_clients(cfg, rep, rng, &svc, &mut server, &models);
   run_unreadable_bodies(rep, &svc, &mut server, &models[0]); // c19fix: unreadable bodies, non-finite results
   // the service survived everything
@@ -2258,3 +2419,279 @@ fn non_finite_text(t: &str) -> bool {
 }
 // c19fix END
 // ================================================================================================
+
+
+// ------------------------------------------------------------------------------------------
+// family `limits`: typed TCK input values at and beyond the machine limits, for every xsd type the input
+// conversion of server/src/dto.rs reads
+// ------------------------------------------------------------------------------------------
+
+#[derive(Clone, Debug, PartialEq)]
+enum LimitWant {
+  /// the value comes back with exactly this type and text
+  Text(&'static str, String),
+  /// the value comes back as an `xsd:decimal` denoting the same number
+  Number,
+  /// an answer with `data` or with `errors`: the value is outside what the property promises (or outside FEEL)
+  Answer,
+}
+
+/// The decimal text of ±(2^bits + delta).
+fn pow2_text(bits: u32, delta: i32, neg: bool) -> String {
+  // schoolbook doubling on decimal digits (least significant first): no machine integer is involved
+  let mut d: Vec<u8> = vec![1];
+  for _ in 0..bits {
+    let mut carry = 0;
+    for x in d.iter_mut() {
+      let v = *x * 2 + carry;
+      *x = v % 10;
+      carry = v / 10;
+    }
+    if carry > 0 {
+      d.push(carry);
+    }
+  }
+  // add delta ∈ {-1, 0, 1}
+  if delta > 0 {
+    let mut i = 0;
+    loop {
+      if i == d.len() {
+        d.push(0);
+      }
+      if d[i] == 9 {
+        d[i] = 0;
+        i += 1;
+      } else {
+        d[i] += 1;
+        break;
+      }
+    }
+  } else if delta < 0 {
+    let mut i = 0;
+    loop {
+      if d[i] == 0 {
+        d[i] = 9;
+        i += 1;
+      } else {
+        d[i] -= 1;
+        break;
+      }
+    }
+    while d.len() > 1 && *d.last().unwrap() == 0 {
+      d.pop();
+    }
+  }
+  let t: String = d.iter().rev().map(|x| char::from(b'0' + *x)).collect();
+  if neg && t != "0" {
+    format!("-{}", t)
+  } else {
+    t
+  }
+}
+
+fn limit_cases() -> Vec<(&'static str, String, LimitWant)> {
+  let mut out: Vec<(&'static str, String, LimitWant)> = vec![];
+  let numeric = ["xsd:integer", "xsd:decimal", "xsd:double"];
+  // integers around every power of two a machine integer ends at, and around the powers of ten: at most 34 digits
+  // come back digit for digit (whatever the numeric type they were sent as); longer ones are outside FEEL's numbers
+  let mut ints: Vec<String> = vec!["0".into(), "1".into(), "-1".into()];
+  for bits in [7u32, 8, 15, 16, 23, 24, 31, 32, 52, 53, 62, 63, 64, 65, 95, 96, 111, 112, 127, 128, 255, 256] {
+    for delta in [-1, 0, 1] {
+      for neg in [false, true] {
+        ints.push(pow2_text(bits, delta, neg));
+      }
+    }
+  }
+  for k in [9usize, 10, 15, 16, 17, 18, 19, 20, 21, 33, 34, 35, 38, 39, 40] {
+    ints.push(format!("1{}", "0".repeat(k - 1))); // 10^(k-1): k digits
+    ints.push("9".repeat(k));
+    ints.push(format!("-{}", "9".repeat(k)));
+  }
+  ints.sort();
+  ints.dedup();
+  for t in &ints {
+    let digits = t.trim_start_matches('-').len();
+    for typ in numeric {
+      let want = if digits <= 34 { LimitWant::Text("xsd:decimal", t.clone()) } else { LimitWant::Answer };
+      out.push((typ, t.clone(), want));
+    }
+  }
+  // decimals and doubles: the limits of f64 and of decimal128, written as xsd:decimal / xsd:double texts
+  for t in [
+    "0.1", "0.5", "-0.25", "1.5", "12.50", "3.141592653589793", "1.7976931348623157E308", "-1.7976931348623157E308", "2.2250738585072014E-308", "4.9E-324", "9007199254740993", "0.1000000000000000055511151231257827",
+    "9.999999999999999999999999999999999E6144", "1E6144", "1E-6143", "1E-6176", "9.999999999999999999999999999999999E-6143", "1.000000000000000000000000000000001", "0.000000000000000000000000000000001",
+  ] {
+    for typ in ["xsd:decimal", "xsd:double"] {
+      out.push((typ, t.to_string(), LimitWant::Number));
+    }
+  }
+  for t in ["1E6145", "1E-6177", "1E999999999", "1E-999999999", "1E9999999999999999999", "12345678901234567890123456789012345.5", "0.10000000000000000000000000000000000001", "INF", "-INF", "NaN", "+INF", "Infinity", "-0", "+1", "1.", ".5", "1e3", "1E+3", "0x10", "1_000", "１２"] {
+    for typ in numeric {
+      out.push((typ, t.to_string(), LimitWant::Answer));
+    }
+  }
+  for t in ["1.5", "1e3", "-0.0", "2.0"] {
+    out.push(("xsd:integer", t.to_string(), LimitWant::Answer));
+  }
+  // booleans
+  out.push(("xsd:boolean", "true".into(), LimitWant::Text("xsd:boolean", "true".into())));
+  out.push(("xsd:boolean", "false".into(), LimitWant::Text("xsd:boolean", "false".into())));
+  for t in ["1", "0", "TRUE", "True", " true", "yes", ""] {
+    out.push(("xsd:boolean", t.to_string(), LimitWant::Answer));
+  }
+  // strings: empty, long, the ends of the planes
+  for t in ["".to_string(), " ".to_string(), "\u{0}".to_string(), "\u{7f}\u{80}\u{7ff}\u{800}\u{ffff}\u{10000}\u{10ffff}".to_string(), "a".repeat(70_000), "\u{10ffff}".repeat(20_000), "\"\\".repeat(3_000)] {
+    out.push(("xsd:string", t.clone(), LimitWant::Text("xsd:string", t)));
+  }
+  // dates: four-digit years come back unchanged; the ends of FEEL's range, of chrono's range and beyond are answered
+  for t in ["1000-01-01", "9999-12-31", "2000-02-29", "2400-02-29", "1970-01-01", "2038-01-19", "2038-01-20", "1901-12-13"] {
+    out.push(("xsd:date", t.to_string(), LimitWant::Text("xsd:date", t.to_string())));
+  }
+  for t in [
+    "0001-01-01", "0000-01-01", "-0001-01-01", "10000-01-01", "262143-12-31", "262144-01-01", "-262144-01-01", "-262145-12-31", "999999999-12-31", "-999999999-01-01", "1000000000-01-01", "-1000000000-01-01", "99999999999999999999-01-01", "1900-02-29",
+    "2021-02-30", "2021-13-01", "2021-00-10", "2021-01-00", "2021-01-32", "2021-01-01Z", "2021-01-01+14:00", "2021-1-1", "4294967296-01-01", "2147483648-01-01", "-2147483649-01-01",
+  ] {
+    out.push(("xsd:date", t.to_string(), LimitWant::Answer));
+  }
+  // times
+  for t in ["00:00:00", "23:59:59", "12:00:00", "00:00:01"] {
+    out.push(("xsd:time", t.to_string(), LimitWant::Text("xsd:time", t.to_string())));
+  }
+  for t in [
+    "24:00:00", "23:59:60", "23:60:00", "25:00:00", "99:99:99", "23:59:59.999999999", "23:59:59.9999999999", "23:59:59.99999999999999999999", "00:00:00.000000001", "12:00:00Z", "12:00:00+14:00", "12:00:00-14:00", "12:00:00+14:01", "12:00:00+18:00", "12:00:00+99:99",
+    "12:00:00@Europe/Warsaw", "12:00:00@Nowhere/Nowhere", "4294967296:00:00", "12:00", "",
+  ] {
+    out.push(("xsd:time", t.to_string(), LimitWant::Answer));
+  }
+  // date-times
+  for t in ["1000-01-01T00:00:00", "9999-12-31T23:59:59", "2000-02-29T12:00:00", "2038-01-19T03:14:07", "2038-01-19T03:14:08", "1970-01-01T00:00:00"] {
+    out.push(("xsd:dateTime", t.to_string(), LimitWant::Text("xsd:dateTime", t.to_string())));
+  }
+  for t in [
+    "0001-01-01T00:00:00", "-0001-12-31T23:59:59", "10000-01-01T00:00:00", "262143-12-31T23:59:59", "262144-01-01T00:00:00", "-262144-01-01T00:00:00", "999999999-12-31T23:59:59", "-999999999-01-01T00:00:00", "1000000000-01-01T00:00:00", "9999-12-31T24:00:00",
+    "9999-12-31T23:59:60", "9999-12-31T23:59:59.999999999", "9999-12-31T23:59:59+14:00", "9999-12-31T23:59:59-14:00", "262143-12-31T23:59:59-14:00", "-262144-01-01T00:00:00+14:00", "999999999-12-31T23:59:59-14:00", "-999999999-01-01T00:00:00+14:00", "2021-02-30T00:00:00",
+    "2021-01-01T00:00:00Z", "2021-01-01T00:00:00@Europe/Warsaw", "2021-01-01", "2021-01-01T", "T00:00:00",
+  ] {
+    out.push(("xsd:dateTime", t.to_string(), LimitWant::Answer));
+  }
+  // durations: canonical small ones come back unchanged; the ends of the counters (months in i64, nanoseconds in i64)
+  for t in ["P1Y", "P1Y2M", "P11M", "-P3Y", "P1D", "PT2H", "P1DT2H3M4S", "-PT5M", "PT1S"] {
+    out.push(("xsd:duration", t.to_string(), LimitWant::Text("xsd:duration", t.to_string())));
+  }
+  for t in [
+    "P0Y", "P0M", "PT0S", "P0D", "P12M", "PT60S", "PT24H", "P999999999Y", "-P999999999Y", "P999999999Y11M", "P1000000000Y", "P11999999999M", "P768614336404564650Y", "P768614336404564651Y", "P9223372036854775807M", "P9223372036854775808M", "-P9223372036854775808M",
+    "P99999999999999999999Y", "P99999999999999999999M", "P106751D", "P106752D", "P106751DT23H47M16S", "P106751DT23H47M16.854775807S", "P106751DT23H47M16.854775808S", "-P106751DT23H47M16.854775808S", "PT9223372036S", "PT9223372037S", "PT9223372036.854775807S",
+    "PT9223372036.854775808S", "PT153722867M", "PT153722868M", "PT2562047H", "PT2562048H", "P99999999999999999999D", "PT99999999999999999999H", "PT99999999999999999999M", "PT99999999999999999999S", "PT0.000000001S", "PT0.0000000001S", "PT0.99999999999999999999S",
+    "P1Y1D", "P1M1D", "P", "PT", "-P", "P1", "P-1Y", "PT1.S",
+  ] {
+    out.push(("xsd:duration", t.to_string(), LimitWant::Answer));
+  }
+  out
+}
+
+const SIG_LIMITS_ANSWER: &str = "limits: a typed TCK value at a machine limit is not answered with a JSON document that has the data or the errors member";
+const SIG_LIMITS_TEXT: &str = "limits: a typed TCK value does not come back unchanged";
+const SIG_LIMITS_NUMBER: &str = "limits: a typed TCK number does not come back as the same number";
+
+/// Typed input values at and beyond the machine limits, for every xsd simple type `TryFrom<&SimpleDto>` reads
+/// (`xsd:string / integer / decimal / double / boolean / date / time / dateTime / duration`): integers around 2^7 …
+/// 2^256 and around the powers of ten to 40 digits under all three numeric types, the limits of f64 and decimal128,
+/// the ends of the ranges of years, offsets, fractions of seconds, of the month and nanosecond counters of durations.
+/// Each is sent alone, as an item of a list and as a component. Expected (written out above, nothing is taken from
+/// the implementation): values inside what FEEL represents come back unchanged (numbers: as `xsd:decimal`, digit for
+/// digit when they are integers of at most 34 digits, as the same number otherwise); every other text is answered with
+/// `data` or `errors`; the request that follows is answered as usual.
+fn run_limits(cfg: &Cfg, rep: &mut Report, svc: &Service, server: &mut Server, m: &MDef) {
+  let _ = cfg;
+  let js = Some("application/json");
+  let setup = [("/definitions/clear", String::new()), ("/definitions/add", svc.content_json(&Content::Model(m.clone()))), ("/definitions/deploy", String::new())];
+  for (path, body) in setup {
+    if let Err(e) = http(server.port, "POST", path, js, body.as_bytes()) {
+      rep.disagree(Kind::ImplVsSpec, "http", "the service stopped answering", path, &e, "an answer");
+      return;
+    }
+  }
+  let simple = |typ: &str, text: &str| json!({"simple": {"type": typ, "text": text, "isNil": false}, "components": null, "list": null});
+  let cases = limit_cases();
+  rep.extra.insert("limits_cases".into(), json!(cases.len()));
+  // what the value looks like in the answer, for each of the three places it is sent in
+  let dig = |j: &J, place: usize| -> Option<J> {
+    let v = j.get("data")?.get("value")?.clone();
+    match place {
+      0 => Some(v),
+      1 => match v.get("list")?.get("items")? {
+        J::Arr(xs) if xs.len() == 1 => Some(xs[0].clone()),
+        _ => None,
+      },
+      _ => match v.get("components")? {
+        J::Arr(xs) if xs.len() == 1 => xs[0].get("value").cloned(),
+        _ => None,
+      },
+    }
+  };
+  for (typ, text, want) in &cases {
+    for place in 0..3usize {
+      if place > 0 && text.len() > 1000 {
+        continue;
+      }
+      let value = match place {
+        0 => simple(typ, text),
+        1 => json!({"simple": null, "components": null, "list": {"items": [simple(typ, text)], "isNil": false}}),
+        _ => json!({"simple": null, "list": null, "components": [{"name": "a", "value": simple(typ, text), "isNil": false}]}),
+      };
+      let body = json!({"model": m.name, "invocable": "E", "input": [{"name": "x", "value": value}]}).to_string();
+      let shown: String = text.chars().take(120).collect();
+      let input = format!("typed value {} {:?}{} sent {} ;; POST /tck/evaluate {}", typ, shown, if text.len() > 120 { format!(" … ({} bytes)", text.len()) } else { String::new() }, ["alone", "as the item of a list", "as a component"][place], body.chars().take(300).collect::<String>());
+      rep.case(&format!("limits|{}|{}|{}", typ, shown, place), true);
+      rep.hit(&format!("limits:{}:{}", typ, match want { LimitWant::Text(..) => "unchanged", LimitWant::Number => "same number", LimitWant::Answer => "answered" }));
+      let a = match http(server.port, "POST", "/tck/evaluate", js, body.as_bytes()) {
+        Ok(a) => a,
+        Err(e) => {
+          rep.disagree(Kind::ImplVsSpec, "limits", SIG_LIMITS_ANSWER, &input, &format!("{} (process alive: {})", e, server.alive()), "a JSON answer");
+          // the requests that follow must be answered all the same
+          let probe = json!({"model": m.name, "invocable": "E", "input": [{"name": "x", "value": simple("xsd:string", "after")}]}).to_string();
+          match http(server.port, "POST", "/tck/evaluate", js, probe.as_bytes()) {
+            Ok(p) if strict_parse(&String::from_utf8_lossy(&p.body)).map(|j| j.get("data").is_some()).unwrap_or(false) => continue,
+            other => {
+              rep.disagree(Kind::ImplVsSpec, "limits", "limits: after a typed TCK value at a machine limit the service no longer answers the requests that follow", &input, &format!("{:?}", other.map(|p| String::from_utf8_lossy(&p.body).to_string())), "{\"data\":…}");
+              return;
+            }
+          }
+        }
+      };
+      let answer = String::from_utf8_lossy(&a.body).to_string();
+      let j = match strict_parse(&answer) {
+        Ok(j) if j.get("data").is_some() || matches!(j.get("errors"), Some(J::Arr(xs)) if !xs.is_empty()) => j,
+        _ => {
+          rep.disagree(Kind::ImplVsSpec, "limits", SIG_LIMITS_ANSWER, &input, &format!("{} {}", a.status, answer.chars().take(300).collect::<String>()), "{\"data\":…} or {\"errors\":[…]}");
+          continue;
+        }
+      };
+      let got = dig(&j, place).and_then(|v| {
+        let s = v.get("simple")?;
+        match (s.get("type"), s.get("text")) {
+          (Some(J::Str(t)), Some(J::Str(x))) => Some((t.clone(), x.clone())),
+          _ => None,
+        }
+      });
+      let show_got = match &got {
+        Some((t, x)) => format!("{} {:?}", t, x.chars().take(200).collect::<String>()),
+        None => answer.chars().take(300).collect::<String>(),
+      };
+      match want {
+        LimitWant::Answer => {}
+        LimitWant::Text(wt, wx) => {
+          if got.as_ref().map(|(t, x)| t == wt && x == wx) != Some(true) {
+            rep.disagree(Kind::ImplVsSpec, "limits", SIG_LIMITS_TEXT, &input, &show_got, &format!("{} {:?}", wt, wx.chars().take(200).collect::<String>()));
+          }
+        }
+        LimitWant::Number => {
+          let same = matches!(&got, Some((t, x)) if t == "xsd:decimal" && num_norm(x).is_some() && num_norm(x) == num_norm(text));
+          if !same {
+            rep.disagree(Kind::ImplVsSpec, "limits", SIG_LIMITS_NUMBER, &input, &show_got, &format!("xsd:decimal, the number {}", text));
+          }
+        }
+      }
+    }
+  }
+}
